@@ -32,11 +32,12 @@ var verifEngineC18 = &verifsim.Engine{
 		"account-key validity windows and signing constraints (asserts/account_key.go)",
 		"signature decoding and RSA verification (asserts/crypto.go, x/crypto openpgp)",
 		"memory backstore and filesystem backstore on real files",
+		"databases stacked on both of them ((*Database).WithStackedBackstore) with their own deliveries",
 		"signing through asserts' assembleAndSign with fixed 1024-bit RSA keys",
 	},
 	Stubs: []string{
 		"the clock (testing/synctest fake clock, stepped by the simulator)",
-		"the transport between signer and database (byte/structural mutations, truncation, chunked reads)",
+		"the transport between signer and database (byte/structural mutations, truncation, chunked reads, reuse of the read buffer before and after Check/Add)",
 		"the store/brand signing infrastructure: the simulator holds every private key",
 	},
 }
